@@ -240,6 +240,39 @@ func c12ops(tier string) []c12op {
 			return fmt.Sprint(c.Destroy())
 		}},
 	)
+	// environments whose socket fails before Destroy is called
+	ops = append(ops,
+		c12op{"build-fails(init exits at once)", func(e *c12env, nonce string) string {
+			_, err := newContainer(func(b *container.Builder) { b.ExecFile = probe("burn") })
+			return fmt.Sprint(err != nil)
+		}},
+		c12op{"build-fails(init never answers)", func(e *c12env, nonce string) string {
+			_, err := newContainer(func(b *container.Builder) { b.ExecFile = probe("mute") })
+			return fmt.Sprint(err != nil)
+		}},
+		c12op{"another-environment:init-killed,ping,destroy", func(e *c12env, nonce string) string {
+			o, err := c12newEnv()
+			if err != nil {
+				return err.Error()
+			}
+			syscall.Kill(o.initPid, syscall.SIGKILL)
+			perr := o.c.Ping()
+			return fmt.Sprint(perr != nil, o.c.Destroy())
+		}},
+		c12op{"another-environment:init-killed-during-run,destroy", func(e *c12env, nonce string) string {
+			o, err := c12newEnv()
+			if err != nil {
+				return err.Error()
+			}
+			p := execveParam([]string{"/probe/tree", nonce, "p,i", "pause"})
+			p.SyncFunc = func(int) error {
+				time.AfterFunc(20*time.Millisecond, func() { syscall.Kill(o.initPid, syscall.SIGKILL) })
+				return nil
+			}
+			st := o.c.Execve(context.Background(), p).Status
+			return fmt.Sprint(statusName(st), o.c.Destroy())
+		}},
+	)
 	// the other two runners
 	for _, sh := range []string{"-", "p,i", "i2,p+"} {
 		for _, end := range []string{"exit", "signal", "cancel"} {
@@ -306,7 +339,7 @@ func init() {
 		}
 		spec := &mc.Spec{
 			Level: "exploration",
-			Rule: "explicit-state search over operation histories on one live environment plus the two other runners: operations = container runs of process trees (shapes with plain, signal-ignoring, double-forked, setsid, setpgid, outliving children, depth ≤ 3) ending by exit / fatal signal / cancellation with sync before / after exec, failing callbacks (also after the tree was built), launches failing before and after sync, open ok / mixed / empty, delete, symlink, reset, ping, build+destroy of a second environment, ptrace and namespace runs of trees with the same endings and failing launches. " +
+			Rule: "explicit-state search over operation histories on one live environment plus the two other runners: operations = container runs of process trees (shapes with plain, signal-ignoring, double-forked, setsid, setpgid, outliving children, depth ≤ 3) ending by exit / fatal signal / cancellation with sync before / after exec, failing callbacks (also after the tree was built), launches failing before and after sync, open ok / mixed / empty, delete, symlink, reset, ping, build+destroy of a second environment, environments whose socket fails before Destroy (Build with an init that exits at once / never answers; init killed while idle or during a run, then Destroy), ptrace and namespace runs of trees with the same endings and failing launches. " +
 				"After every operation the residue vector (descriptor classes, children and goroutines of this process; descriptors and children of the container init; live program processes) must equal the baseline taken before the first operation; histories are extended only from states not seen before (canonical state = residue vector). " +
 				"non-trivial: the operation creates processes or fails; distinct = (history, residue vectors)",
 			Bound:       map[string]any{"history_depth": depth, "operations": len(ops)},
